@@ -1,6 +1,9 @@
 import ScriggoV.Model.Order
+import ScriggoV.Model.DeclOrder
 import ScriggoV.Gen.MapRanges
+import ScriggoV.Gen.MapRangeCalls
 import ScriggoV.Spec.MapRangeClasses
+import ScriggoV.Spec.MapRangeCallsReview
 import ScriggoV.Gen.CompilerGlobals
 import ScriggoV.Spec.CompilerGlobalsReview
 /-! C30 — building is deterministic.
@@ -123,6 +126,83 @@ theorem setVar_emission_not_deterministic : ¬ EmitDeterministic setVarInstr := 
   revert this
   decide
 
+/-! ### a second, mechanical reading of every loop; the callers of the by-name search
+
+`Gen/MapRangeCalls.lean` (go/types, regenerated): the *shape* of every map range as a syntactic
+recogniser sees it, the calls of the helpers whose search tests a parameter, and how
+`sortDeclarations` fetches the dependencies of a declaration. The hash of a loop body does not
+change when a *new caller* hands the loop data on which its uniqueness invariant is false — that
+is a change of these facts. -/
+
+open ScriggoV.Spec.MapRangeCallsReview in
+/-- the recogniser looked at the same sites, in the same order -/
+theorem shapes_same_sites :
+    Gen.MapRangeCalls.shapes.map (fun s => (s.file, s.fn, s.ord))
+      = Gen.MapRanges.sites.map (fun s => (s.file, s.fn, s.ord)) := by
+  decide +kernel
+
+open ScriggoV.Spec.MapRangeCallsReview in
+/-- **The recognised shape of every loop is one its class explains**: no append without a sort,
+no emission-like call under a selection class, no search where a store was read. -/
+theorem shapes_agree_with_classes :
+    (Classified.sites.zip Gen.MapRangeCalls.shapes).all
+      (fun p => compatible p.1.cls p.2.shape) = true := by
+  decide +kernel
+
+/-- the searches that are *not* by key (their determinism is a uniqueness property of the data) -/
+theorem by_field_searches :
+    (Gen.MapRangeCalls.shapes.filter (·.shape == "selectByField")).map (fun s => (s.fn, s.test, s.testParams))
+      = [("deps.nodeDeps", "slices.Contains(v, d.analyzingVarExprWithItea)", []),
+         ("depsOf", "g.Name == name", ["name"]),
+         ("emitter.canOptimizeShowMacro", "t == typ", [])] := by
+  decide +kernel
+
+open ScriggoV.Spec.MapRangeCallsReview in
+/-- **Every call of a by-name search helper is a reviewed one** (callee, caller, arguments as
+written). A new call — `depsOf(c.Lhs[0].Name, deps)` where the name can be `_` — leaves this
+undischarged. -/
+theorem helper_calls_reviewed :
+    Gen.MapRangeCalls.helperCalls.map (fun c => (c.callee, c.caller, c.args))
+      = helperCalls.map (fun c => (c.1, c.2.1, c.2.2.1)) := by
+  decide +kernel
+
+open ScriggoV.Spec.MapRangeCallsReview in
+/-- **`sortDeclarations` fetches the dependencies of the declaration it places by identifier, in
+each of its three groups** — the lookup `DeclOrder.byId` of the model, for which the ordering is
+proved independent of the map's enumeration. -/
+theorem sort_lookups_by_identifier :
+    Gen.MapRangeCalls.sortLookups.map (fun l => lookupOf l.2) = [some .byId, some .byId, some .byId] := by
+  decide +kernel
+
+/-- **The ordering of the package-level declarations is a function of the declaration list
+only**: for the lookup the source uses (previous theorem), two enumerations of the dependency
+map — any permutation of its entries, keys distinct — give the same order. -/
+theorem declaration_order_deterministic (es es' : DeclOrder.Entries)
+    (nd : (es.map (·.1.id)).Nodup) (h : es.Perm es') (ds : List DeclOrder.Decl) :
+    DeclOrder.sortDeclarations (DeclOrder.byId es) ds = DeclOrder.sortDeclarations (DeclOrder.byId es') ds :=
+  DeclOrder.sortDeclarations_perm_invariant nd h ds
+
+/-- **Full statement for the by-name lookup** (`depsOf(c.Lhs[0].Name, deps)`): false, the blank
+declarations share their name. -/
+def ByNameOrderDeterministic : Prop :=
+  ∀ (es es' : DeclOrder.Entries), (es.map (·.1.id)).Nodup → es.Perm es' → ∀ ds,
+    DeclOrder.sortDeclarations (DeclOrder.byName es) ds = DeclOrder.sortDeclarations (DeclOrder.byName es') ds
+
+theorem not_byNameOrderDeterministic : ¬ ByNameOrderDeterministic :=
+  DeclOrder.byName_not_perm_invariant
+
+/-- `_partial`: by name it is deterministic exactly as far as the names are distinct -/
+theorem byName_order_deterministic_partial (es es' : DeclOrder.Entries)
+    (nd : (es.map (·.1.name)).Nodup) (h : es.Perm es') (ds : List DeclOrder.Decl) :
+    DeclOrder.sortDeclarations (DeclOrder.byName es) ds = DeclOrder.sortDeclarations (DeclOrder.byName es') ds :=
+  DeclOrder.sortDeclarations_byName_perm_of_distinct_names nd h ds
+
+/-- sorting loses and invents nothing -/
+theorem sort_group_is_permutation (deps : DeclOrder.Decl → List String) (extra : List String)
+    (pending : List DeclOrder.Decl) :
+    (DeclOrder.sortLoop deps extra pending.length pending []).Perm pending := by
+  simpa using DeclOrder.sortLoop_perm deps extra pending.length pending []
+
 /-! ### state that survives a build: package-level variables of the compiler
 
 Builds in one process are independent only if nothing written during a build is read by the next.
@@ -144,6 +224,23 @@ reviewed** (name and type equal to the regenerated list): a new one is an obliga
 theorem reference_globals_reviewed :
     (Gen.CompilerGlobals.vars.filter (·.refs)).map (fun v => (v.name, v.typ))
       = reviewed.map (fun r => (r.1, r.2.1)) := by
+  decide +kernel
+
+open ScriggoV.Spec.CompilerGlobalsReview in
+/-- **The variables from which a build can reach, by pointer, a struct whose fields functions of the
+compiler assign are exactly the two reviewed as shared state** (type-based over-approximation of
+"mutated through an alias", regenerated): `universe` and `untypedBoolTypeInfo`, through `*typeInfo`. -/
+theorem pointer_reach_is_reviewed_shared_state :
+    Gen.CompilerGlobals.pointerReach
+      = (reviewed.filter (fun r => r.2.2 == .sharedTypeInfo)).map (fun r => (r.1, ["typeInfo"])) := by
+  decide +kernel
+
+open ScriggoV.Spec.CompilerGlobalsReview in
+/-- **Who writes the fields of a `typeInfo`** (field, function): the reviewed list. The two that
+write through a `*typeInfo` that can be a universe one are `typeInfo.setValue` and `emitter.ti`
+(finding `history-universe-bool`); a new writer is an obligation. -/
+theorem typeInfo_field_writers_reviewed :
+    Gen.CompilerGlobals.fieldWrites = [("typeInfo", typeInfoWriters)] := by
   decide +kernel
 
 open ScriggoV.Spec.CompilerGlobalsReview in
@@ -173,5 +270,9 @@ example : UniqueResult (fun e : Nat × Nat => e.1 == 2) (fun e => e.2) [(1, 10),
   rw [this]
 example : [(1, 10), (2, 5), (3, 7)].foldl (stepArgMin (fun _ => true) (fun e => e.2)) none = some (2, 5) := by
   decide
+/-- a forward reference is sorted: `var a = b`, `var b = c`, `const c = 1` -/
+example : (DeclOrder.sortDeclarations
+    (DeclOrder.byId [(⟨0, .var, "a"⟩, ["b"]), (⟨1, .var, "b"⟩, ["c"]), (⟨2, .const, "c"⟩, [])])
+    [⟨0, .var, "a"⟩, ⟨1, .var, "b"⟩, ⟨2, .const, "c"⟩]).map (·.id) = [2, 1, 0] := by decide
 
 end ScriggoV.C30
